@@ -5,6 +5,7 @@ import time
 
 VERIF = os.path.dirname(os.path.dirname(os.path.abspath(__file__)))
 KNOWN = os.path.join(VERIF, 'known_findings.json')
+EVIDENCE = os.environ.get('SWV_EVIDENCE_DIR') or os.path.join(VERIF, 'evidence')
 
 
 def load_known():
@@ -78,7 +79,7 @@ class Report:
             # a listed finding that no longer fires is not an alarm; it is reported for hygiene
             print(f"NOTE: known finding no longer observed: {k['key']}")
         rc = 0
-        vdir = os.path.join(VERIF, 'evidence', 'violations')
+        vdir = os.path.join(EVIDENCE, 'violations')
         os.makedirs(vdir, exist_ok=True)
         for i, o in enumerate(violations):
             path = os.path.join(vdir, f'{self.prop}_{i}.json')
@@ -131,8 +132,8 @@ class Report:
             'wall_s': round(time.time() - self.t0, 2),
             'violations': len(violations) + len(self.incomplete),
         }
-        os.makedirs(os.path.join(VERIF, 'evidence'), exist_ok=True)
-        with open(os.path.join(VERIF, 'evidence', f'{self.prop}.json'), 'w') as fh:
+        os.makedirs(EVIDENCE, exist_ok=True)
+        with open(os.path.join(EVIDENCE, f'{self.prop}.json'), 'w') as fh:
             json.dump(ev, fh, indent=1)
         print(f'{self.prop}: {n_ob} obligations, {n_ok} discharged, {len(hit_known)} known findings, '
               f'{len(violations)} violations, {len(self.incomplete)} incomplete; '
